@@ -129,6 +129,16 @@ def programs(tier):
         if first.get("datafn"):
             sp["entries"]["top_n0"] = {"kind": "eval", "fn": "N0"}       # dds.eval of a data function: the evaluated function is itself kept
         out.append(sp)
+        if n == 2 and sp["id"].startswith("C/chain/") and not sp["id"].endswith("/bare"):
+            # the same pipeline with every tracked call made from a worker thread that the calling function starts and joins
+            import copy
+            th = copy.deepcopy(sp)
+            for f in th["funcs"]:
+                for it in f["body"]:
+                    if it["k"] in ("keep", "call"):
+                        it["ctx"] = "thread"
+            th["id"] += "/thread"
+            out.append(th)
     return out
 
 
